@@ -766,3 +766,106 @@ mod tests {
         }
     }
 }
+
+// ------------------------------------------------------------------ D-names (tricky names)
+
+pub const SPECIAL_NAMES: [&str; 5] = ["attributes-charset", "attributes-natural-language", "printer-uri", "job-uri", "job-id"];
+
+/// Names that are NOT one of the five specially treated operation attribute names but equal one of them under a
+/// plausible normalisation (ASCII case, surrounding blanks, a trailing NUL, '_' for '-'). Returned with the index of
+/// the special name they resemble.
+pub fn special_name_lookalikes() -> Vec<(usize, Vec<u8>)> {
+    let mut out = vec![];
+    for (i, n) in SPECIAL_NAMES.iter().enumerate() {
+        let title: String = n
+            .split('-')
+            .map(|w| {
+                let mut c = w.chars();
+                match c.next() {
+                    Some(f) => f.to_ascii_uppercase().to_string() + c.as_str(),
+                    None => String::new(),
+                }
+            })
+            .collect::<Vec<_>>()
+            .join("-");
+        out.push((i, title.into_bytes()));
+        out.push((i, n.to_ascii_uppercase().into_bytes()));
+        out.push((i, format!("{} ", n).into_bytes()));
+        out.push((i, format!("{}\0", n).into_bytes()));
+        out.push((i, n.replace('-', "_").into_bytes()));
+    }
+    out
+}
+
+/// Pairs of DISTINCT names that collide under some plausible normalisation or comparison shortcut: ASCII case,
+/// Unicode case, trimming, NUL termination, Unicode normalisation (NFC vs NFD), compatibility forms, truncation
+/// to 255 octets, prefix relation, and the empty name.
+pub fn name_twins() -> Vec<(Vec<u8>, Vec<u8>)> {
+    let s = |x: &str| x.as_bytes().to_vec();
+    let long_a = vec![b'p'; 255];
+    let mut long_b = long_a.clone();
+    long_b.push(b'q');
+    vec![
+        (s("marker-levels"), s("Marker-Levels")),
+        (s("media"), s("MEDIA")),
+        (s("größe"), s("GRÖSSE")),
+        (s("a"), s("a ")),
+        (s("a"), s(" a")),
+        (s("a"), s("a\0")),
+        (s("a"), s("a\0b")),
+        (s("\u{e9}t\u{e9}"), s("e\u{301}te\u{301}")),
+        (s("\u{212a}"), s("K")),
+        (s("\u{fb01}n"), s("fin")),
+        (s("ab"), s("abc")),
+        (long_a, long_b),
+        (s("x-1"), s("x_1")),
+        (s("0"), s("00")),
+    ]
+}
+
+/// Valid UTF-8 names of (at most) the given octet length made of one multi-octet character repeated after
+/// 0..width-1 ASCII octets: for character width 2 every octet offset inside the name is a non-boundary in one of
+/// the two shifts, for widths 3 and 4 in all but one. Anything that slices, blocks or truncates text by octet
+/// count at ANY fixed offset below the length meets a character straddling it.
+pub fn multibyte_names(len: usize) -> Vec<Vec<u8>> {
+    let mut out = vec![];
+    for ch in ["\u{f6}", "\u{20ac}", "\u{1d11e}"] {
+        let w = ch.len();
+        for shift in 0..w {
+            let mut v = vec![b'a'; shift];
+            while v.len() + w <= len {
+                v.extend_from_slice(ch.as_bytes());
+            }
+            out.push(v);
+        }
+    }
+    out
+}
+
+pub const MULTIBYTE_LENS: [usize; 6] = [70, 255, 300, 1100, 9000, 33000];
+
+/// Well-formed wire messages carrying the multi-octet texts of `multibyte_names` (whole, and with the last octet
+/// chopped so that the text ends inside a character) in each text position: attribute name, text value,
+/// language of a textWithLanguage, member name.
+pub fn tricky_text_wire(lens: &[usize]) -> Vec<(String, Vec<u8>)> {
+    let mut out = vec![];
+    for len in lens {
+        for (k, n) in multibyte_names(*len).into_iter().enumerate() {
+            for trunc in [false, true] {
+                let t: Vec<u8> = if trunc { n[..n.len() - 1].to_vec() } else { n.clone() };
+                for pos in 0..4 {
+                    let mut m = Msg::new(0x0101, 0x000b, 3);
+                    let a = match pos {
+                        0 => Attr { name: t.clone(), values: vec![Val::Int(1)] },
+                        1 => Attr { name: b"t".to_vec(), values: vec![Val::Str(T_TEXT, t.clone())] },
+                        2 => Attr { name: b"l".to_vec(), values: vec![Val::TextLang(t.clone(), b"x".to_vec())] },
+                        _ => Attr { name: b"c".to_vec(), values: vec![Val::Coll(vec![(t.clone(), vec![Val::Int(1)])])] },
+                    };
+                    m.groups.push(Group { tag: TAG_OPERATION, attrs: vec![a, Attr { name: b"z".to_vec(), values: vec![Val::Bool(true)] }] });
+                    out.push((format!("mbtext[len={},k={},trunc={},pos={}]", len, k, trunc, pos), encode(&m)));
+                }
+            }
+        }
+    }
+    out
+}
